@@ -71,6 +71,22 @@ def check(F, rep):
                 src = copy_sources(f, op_base(ct["args"][1]), stop=(sel.local,))
                 rep.ob("queued", cb in region and bool(src) and all(x[0] == "place" and x[1] == sel.local for x in src), site(f, cb), "the queued address is the resolver's item; sources %s" % sorted(map(str, src)), skey(F, f, "queue-resolved"))
                 rep.ob("queued", requires(f, cb, ts, levels=[0, 1]), site(f, cb), "pushed on the Some(Ok(ip)) path", skey(F, f, "queue-on-ok"))
+    # every attempt carries its own relative timeout
+    att = []
+    for g in F.tree(F.fn(FN)):
+        for b, t in find_calls(g, regex=r"^tokio::time::timeout::(timeout|timeout_at)$"):
+            if any(True for _ in find_calls(g, regex=r"TcpStream::connect$")):
+                att.append((g, b, t))
+    rep.exact("per-attempt-timeout", "timeouts around TcpStream::connect", len(att), 1)
+    for g, b, t in att:
+        rep.fn(g)
+        gdu = defuse(g)
+        n0 = callee_names(t)[0]
+        d = t["args"][0]
+        cs = {d.get("def")} if d["k"] == "const" else {x[4].get("def") for x in gdu.origin_facts(op_base(d), kinds=("const",))}
+        rep.ob("per-attempt-timeout", n0.endswith("::timeout") and any((c or "").endswith("DIAL_ENDPOINT_TIMEOUT") for c in cs) and g.coroutine, site(g, b),
+               "each connection attempt is capped by its own relative timeout(DIAL_ENDPOINT_TIMEOUT, connect) started inside the attempt (callee %s, duration %s) - a shared absolute deadline would expire attempts that start late" % (n0.rsplit("::", 1)[-1], sorted(map(str, cs))),
+               skey(F, f, "attempt-timeout"))
     # the queue is consumed only by pop_family
     users = []
     for b, t in f.calls():
